@@ -1,5 +1,5 @@
 (* C11 — Chunks are self-contained, deterministic and randomly accessible (partial). *)
-From QCo.Lemmas Require Import Tactics WriterL ReaderL.
+From QCo.Lemmas Require Import Tactics WriterL ReaderL FileL IterL.
 From QCo.Model Require Import Base Consts DType Codec Writer Reader.
 Open Scope N_scope.
 
@@ -15,3 +15,31 @@ Proof. exact w_file_of_accepted. Qed.
 Theorem C11_skip_outside_chunk : forall d st, r_cbd st = None ->
   r_step d st RSkip = (st, ROErr InvalidArgument).
 Proof. exact skip_outside_chunk_refused. Qed.
+
+(* header + any sub-sequence, reordering or repetition of a file's chunks + footer is again a
+   valid file holding exactly those chunks *)
+Theorem C11_subfile : forall d order gcds chunks sub,
+  order <= 7 ->
+  Forall (chunk_ok d (writer_flags order gcds)) chunks ->
+  incl sub chunks ->
+  Forall (chunk_ok d (writer_flags order gcds)) sub /\
+  exists bytes, file_bytes d (writer_flags order gcds) sub = Ok bytes /\
+                decode_file d bytes = Ok (concat (map fst sub)).
+Proof. exact subfile_roundtrip. Qed.
+
+(* the bytes of a file are the concatenation of per-chunk byte strings *)
+Theorem C11_chunk_bytes_concatenate : forall d f a b,
+  chunks_bytes d f (a ++ b) = do x <- chunks_bytes d f a; do y <- chunks_bytes d f b; Ok (x ++ y).
+Proof. exact chunks_bytes_app. Qed.
+
+(* skipping any subset of chunk bodies using only their metadata lands exactly on the next chunk
+   (and finally on the end of the file); the chunks that are decoded yield exactly their numbers *)
+Theorem C11_random_access : forall d order gcds chunks bytes choice,
+  order <= 7 ->
+  Forall (chunk_ok d (writer_flags order gcds)) chunks ->
+  file_bytes d (writer_flags order gcds) chunks = Ok bytes ->
+  length choice = length chunks ->
+  let r := r_run d (fresh bytes) (ra_ops choice) in
+  snd r = ra_outs d (writer_flags order gcds) chunks choice /\
+  r_bit (fst r) = total_bits (fst r).
+Proof. exact random_access. Qed.
